@@ -21,10 +21,16 @@ import (
 	"time"
 )
 
-const (
-	verifDir = "/verif"
-	repoDir  = "/repo"
-)
+const verifDir = "/verif"
+
+// repoDir is /repo for every registered check; VERIF_REPO_DIR points development experiments
+// (mutation tests in a scratch worktree) somewhere else without touching /repo.
+var repoDir = func() string {
+	if d := os.Getenv("VERIF_REPO_DIR"); d != "" {
+		return d
+	}
+	return "/repo"
+}()
 
 type TierCfg struct {
 	BudgetS      int `json:"budget_s"`
